@@ -127,6 +127,11 @@ static DD expand_block(const DD &g) {
 // one application through the backend's vector type
 static void do_apply(const AMG &a, const std::vector<double> &f, std::vector<double> &x);
 
+// replay mode: only the matrix named in the replayed key needs to be set up
+static bool wanted(const std::string &id) {
+    return !vf::replaying() || vf::S().replay_key.find("|" + id + "|") != std::string::npos;
+}
+
 static MatInfo prepare(const std::string &id, const DD &d) {
     MatInfo m; m.id = id; m.d = d; m.A = to_backend_crs(d);
     int n = d.m;
@@ -368,7 +373,7 @@ static void run_case(const std::string &key, const MatInfo &m, const Cfg &c, boo
 // ---------------------------------------------------------------------------------------------
 static std::vector<MatInfo> grid_matrices() {
     std::vector<MatInfo> v;
-    auto add = [&](const std::string &id, const DD &d) { v.push_back(prepare(id, expand_block(d))); };
+    auto add = [&](const std::string &id, const DD &d) { if (wanted(id)) v.push_back(prepare(id, expand_block(d))); else v.push_back(MatInfo()); };
     // quick: n <= 36
     add("g8x1s0", fam::grid(8, 1, 0, 9));
     add("g12x1s56", fam::grid(12, 1, 56, 9));
@@ -415,6 +420,7 @@ static void run_grids() {
     for (auto &m : mats) {
         int n = m.d.m;
         size_t my = idx++;
+        if (m.id.empty()) continue;      // replay mode: not the replayed matrix
         if (C02_BLOCK > 1 && my >= 7 && m.id != "g8x8s0") continue;
         if (C02_THREADS > 1 && my >= 7) continue;
         for (int ci = 0; ci < 4; ++ci) for (int ri = 0; ri < 9; ++ri) for (int lv = 0; lv < 5; ++lv)
@@ -456,10 +462,12 @@ static void run_graphs() {
     for (int n = 3; n <= (variant_unit() ? 4 : 5); ++n) {
         for (uint64_t mask = 0; mask < (1ull << fam::npairs(n)); ++mask) {
             if (!vf::take_group()) continue;
+            std::string id = vf::KS() << "lap" << n << "m" << mask;
+            if (!wanted(id)) continue;
             DD d = fam::sym_pattern(n, mask, 0);
             if (!fam::connected(d)) continue;
             for (int i = 1; i < n; ++i) d(i, i) -= 1;        // only node 0 keeps the strict dominance
-            small_matrix_cases("graph", prepare(vf::KS() << "lap" << n << "m" << mask, expand_block(d)));
+            small_matrix_cases("graph", prepare(id, expand_block(d)));
         }
         vf::space(vf::KS() << "graph Laplacians: every connected graph on " << n << " nodes x configuration " << (vf::quick() ? "star around (1,1,1,1) and (2,2,2,1)" : "full product"));
     }
@@ -480,21 +488,23 @@ static void run_weaklinks() {
             }
             for (int i = 0; i < n; ++i) { double sum = (i == 0 ? 1 : 0); for (int j = 0; j < n; ++j) if (j != i && d.st(i, j)) sum -= d(i, j); d.st(i, i) = 1; d(i, i) = sum; }
             if (!fam::connected(d)) continue;
-            small_matrix_cases("wl", prepare(vf::KS() << "wl" << n << "c" << code, expand_block(d)));
+            std::string id = vf::KS() << "wl" << n << "c" << code;
+            if (wanted(id)) small_matrix_cases("wl", prepare(id, expand_block(d)));
         }
         vf::space(vf::KS() << "weak-link graph Laplacians: every connected graph on " << n << " nodes x every edge weight assignment from {1,100} x configuration " << (vf::quick() ? "star" : "full product"));
     }
 }
 
 // 1-D diffusion with every coefficient stripe mask, contrast 9 and 99 (nearly decoupled / nearly singular blocks),
-// n = 3..8 (thorough ..10); 2-D 3x3 .. 4x4 with every stripe mask in thorough
+// n = 3..8 (thorough ..9); 2-D 3x3 .. 4x4 with every stripe mask in thorough
 static void run_stripes() {
-    int nmax = variant_unit() ? 6 : (vf::thorough() ? 10 : 8);
+    int nmax = variant_unit() ? 6 : (vf::thorough() ? 9 : 8);
     for (int nx = 3; nx <= nmax; ++nx) for (double contrast : {9.0, 99.0}) {
         for (uint64_t st = 0; st < (1ull << nx); ++st) {
             if (!vf::take_group()) continue;
             if (st == 0 && contrast > 9) continue;
-            small_matrix_cases("g1d", prepare(vf::KS() << "g" << nx << "x1s" << st << "c" << (int)contrast, expand_block(fam::grid(nx, 1, st, contrast))));
+            std::string id = vf::KS() << "g" << nx << "x1s" << st << "c" << (int)contrast;
+            if (wanted(id)) small_matrix_cases("g1d", prepare(id, expand_block(fam::grid(nx, 1, st, contrast))));
         }
         vf::space(vf::KS() << "1-D diffusion n=" << nx << ", every stripe mask, contrast " << contrast << " x configuration " << (vf::quick() ? "star" : "full product"));
     }
@@ -503,7 +513,8 @@ static void run_stripes() {
             for (uint64_t st = 0; st < (1ull << nx); ++st) {
                 if (!vf::take_group()) continue;
                 if (st == 0 && contrast > 9) continue;
-                small_matrix_cases("g2d", prepare(vf::KS() << "g" << nx << "x" << ny << "s" << st << "c" << (int)contrast << "a" << an, expand_block(fam::grid(nx, ny, st, contrast, an ? 0.125 : 1.0))));
+                std::string id = vf::KS() << "g" << nx << "x" << ny << "s" << st << "c" << (int)contrast << "a" << an;
+                if (wanted(id)) small_matrix_cases("g2d", prepare(id, expand_block(fam::grid(nx, ny, st, contrast, an ? 0.125 : 1.0))));
             }
         }
         vf::space("2-D diffusion 3x3..4x4, every stripe mask, contrast 9 and 99, anisotropy {1, 1/8} x full configuration product");
